@@ -1,9 +1,11 @@
 package vapp
 
 import (
+	"encoding/json"
 	"fmt"
 	"math/big"
 	"sort"
+	"sync"
 )
 
 // argInt returns a request argument as a small integer; ok=false when it is not one
@@ -326,4 +328,182 @@ func Get2(m map[string]map[string]int64, a, b string) int64 {
 		return x[b]
 	}
 	return 0
+}
+
+// ---------------------------------------------------------------------------------
+// Allegation_Trace events (C19)
+
+type AllegTx struct {
+	K       string `json:"k"`
+	By      string `json:"by"`
+	ID      string `json:"id"`
+	Accused string `json:"accused"`
+	Choice  int64  `json:"choice"`
+	V       string `json:"v"`
+}
+
+type AllegReq struct {
+	Accused string           `json:"accused"`
+	Votes   map[string]int64 `json:"votes"`
+}
+
+type FrozenAbs struct {
+	Status int64 `json:"status"`
+	At     int64 `json:"at"`
+}
+
+type AllegEvent struct {
+	T           int                  `json:"t"`
+	Ev          string               `json:"ev"`
+	H           int64                `json:"h"`
+	Secs        int64                `json:"secs"`
+	VotePct     int64                `json:"votePct"`
+	AllegPct    int64                `json:"allegPct"`
+	PenaltyPct  int64                `json:"penaltyPct"`
+	BountyPct   int64                `json:"bountyPct"`
+	ReleaseDays int64                `json:"releaseDays"`
+	Base        int64                `json:"base"`
+	Active      []string             `json:"active"`
+	Frozen      map[string]FrozenAbs `json:"frozen"`
+	Txs         []AllegTx            `json:"txs"`
+	ReqPre      map[string]AllegReq  `json:"reqPre"`
+	ReqPost     map[string]AllegReq  `json:"reqPost"`
+	ActiveCount int64                `json:"activeCount"`
+	NewFrozen   map[string]int64     `json:"newFrozen"` // frozen in this block: validator -> status
+	Verdicts    map[string]string    `json:"verdicts"`  // accused -> "guilty" | "innocent" (block-end events)
+	StakePre    map[string]int64     `json:"stakePre"`
+	StakeDelta  map[string]int64     `json:"stakeDelta"`
+	StakePost   map[string]int64     `json:"stakePost"`
+	BountyPre   int64                `json:"bountyPre"`
+	BountyPost  int64                `json:"bountyPost"`
+	BountyIn    int64                `json:"bountyIn"` // sent to the bounty pool by transactions of the block
+	DupVotes    []string             `json:"dupVotes"`
+}
+
+func allegReqs(s *AbsState) (map[string]AllegReq, []string) {
+	out := map[string]AllegReq{}
+	dup := []string{}
+	for id, r := range s.Requests {
+		out[id] = AllegReq{Accused: r.Accused, Votes: r.Votes}
+		if len(r.Order) != len(r.Votes) {
+			dup = append(dup, id)
+		}
+	}
+	sort.Strings(dup)
+	return out, dup
+}
+
+func AllegEvents(t int, sc *Scenario, tr *Transcript) []AllegEvent {
+	if tr.InitState == nil {
+		return nil
+	}
+	var evs []AllegEvent
+	prev := tr.InitState
+	base := pow10(sc.Genesis.OLTDecimal)
+	bounty := func(s *AbsState) int64 { return s.Bal["pool:"+BountyAddr]["OLT"] }
+	ridOf := map[string]string{}
+	for _, n := range reqNames {
+		ridOf[n] = n
+	}
+	for _, b := range tr.Blocks {
+		if b.State == nil {
+			break
+		}
+		e := AllegEvent{T: t, Ev: "Block", H: b.H, Secs: b.Secs, Base: base,
+			VotePct: optInt(prev, "evidenceopt", "validatorVotePercentage"), AllegPct: optInt(prev, "evidenceopt", "allegationPercentage"),
+			PenaltyPct: optInt(prev, "evidenceopt", "penaltyBasePercentage"), BountyPct: optInt(prev, "evidenceopt", "penaltyBountyPercentage"),
+			ReleaseDays: optInt(prev, "evidenceopt", "validatorReleaseTime"),
+			Frozen:      map[string]FrozenAbs{}, Txs: []AllegTx{}, NewFrozen: map[string]int64{}, Verdicts: map[string]string{},
+			StakePre: prev.StakeTot, StakeDelta: map[string]int64{}, StakePost: b.State.StakeTot, BountyPre: bounty(prev), BountyPost: bounty(b.State)}
+		act := map[string]bool{}
+		for v, st := range prev.Status {
+			if st.Active {
+				act[v] = true
+			}
+		}
+		e.Active = sortedKeys(act)
+		for v, f := range prev.Frozen {
+			if f.IsFrozen {
+				e.Frozen[v] = FrozenAbs{Status: f.Status, At: f.At}
+			}
+		}
+		e.ReqPre, _ = allegReqs(prev)
+		e.ReqPost, e.DupVotes = allegReqs(b.State)
+		for _, u := range b.Updates {
+			if u.Power > 0 {
+				e.ActiveCount++
+			}
+		}
+		for v, f := range b.State.Frozen {
+			if f.Height == b.H && f.IsFrozen {
+				e.NewFrozen[v] = f.Status
+			}
+		}
+		for _, ev := range b.Events {
+			if ev.Type == "allegation_tracker" {
+				n := sc.nameOfRawHex(ev.Attrs["block.malicious"])
+				switch ev.Attrs["block.status"] {
+				case "03":
+					e.Verdicts[n] = "guilty"
+				case "02":
+					e.Verdicts[n] = "innocent"
+				}
+			}
+		}
+		for _, tx := range b.Txs {
+			if !accepted(tx) {
+				continue
+			}
+			switch tx.Req.Kind {
+			case "ALLEGATION":
+				e.Txs = append(e.Txs, AllegTx{K: "ALLEGATION", By: tx.Req.S("by"), ID: tx.Req.S("id"), Accused: tx.Req.S("accused")})
+			case "ALLEGATION_VOTE":
+				e.Txs = append(e.Txs, AllegTx{K: "VOTE", By: tx.Req.S("by"), ID: tx.Req.S("id"), Choice: tx.Req.I("choice")})
+			case "RELEASE":
+				e.Txs = append(e.Txs, AllegTx{K: "RELEASE", V: tx.Req.S("v")})
+			case "STAKE", "UNSTAKE", "WITHDRAW":
+				a, _ := argInt(tx.Req, "amt")
+				e.Txs = append(e.Txs, AllegTx{K: tx.Req.Kind, V: tx.Req.S("v")})
+				if tx.Req.Kind == "STAKE" {
+					e.StakeDelta[tx.Req.S("v")] += a
+				} else if tx.Req.Kind == "UNSTAKE" {
+					e.StakeDelta[tx.Req.S("v")] -= a
+				}
+			case "SENDPOOL":
+				if tx.Req.S("pool") == "BountyPool" {
+					a, _ := argInt(tx.Req, "amt")
+					e.BountyIn += a
+				}
+			}
+		}
+		if e.DupVotes == nil {
+			e.DupVotes = []string{}
+		}
+		evs = append(evs, e)
+		prev = b.State
+	}
+	return evs
+}
+
+func (sc *Scenario) nameOfRawHex(h string) string {
+	g := genesisCache(sc.Genesis)
+	if n, ok := g.Names[h]; ok {
+		return n
+	}
+	return "x:" + h
+}
+
+var gcache = map[string]*Genesis{}
+var gcacheMu sync.Mutex
+
+func genesisCache(gs GenesisSpec) *Genesis {
+	k, _ := json.Marshal(gs)
+	gcacheMu.Lock()
+	defer gcacheMu.Unlock()
+	if g, ok := gcache[string(k)]; ok {
+		return g
+	}
+	g := BuildGenesis(gs)
+	gcache[string(k)] = g
+	return g
 }
